@@ -84,7 +84,7 @@ class EffectDomain(DefaultDomain):
             return True, False
         if isinstance(v, tuple) and len(v) == 2 and v[0] == "const":
             return True, v[1]
-        if isinstance(v, tuple) and v[:1] == ("tuple",):
+        if isinstance(v, tuple) and v[:1] in (("tuple",), ("lazyseq",)):
             items = [EffectDomain._py(x) for x in v[1:]]
             if all(ok for ok, _ in items):
                 return True, tuple(x for _, x in items)
@@ -331,7 +331,32 @@ class EffectDomain(DefaultDomain):
             return True if (a is True and b is True) else False if False in (a, b) else None
         return None
 
+    def _values_equal(self, a, b, depth=0):
+        """True / False when two abstract values are known to compare equal / unequal, else None."""
+        if a == TOP or b == TOP or depth > 6:
+            return None
+        ka, kb = isinstance(a, tuple) and a[:1] == ("kwdict",), isinstance(b, tuple) and b[:1] == ("kwdict",)
+        if ka and kb:
+            da, db = dict(a[1]), dict(b[1])
+            if set(da) != set(db):
+                return False
+            verdicts = [self._values_equal(da[k], db[k], depth + 1) for k in da]
+            return False if False in verdicts else (None if None in verdicts else True)
+        if ka != kb and (self._py(a)[0] or self._py(b)[0]):
+            return False
+        ta, tb = isinstance(a, tuple) and a[:1] == ("tuple",), isinstance(b, tuple) and b[:1] == ("tuple",)
+        if ta and tb:
+            if len(a) != len(b):
+                return False
+            verdicts = [self._values_equal(x, y, depth + 1) for x, y in zip(a[1:], b[1:])]
+            return False if False in verdicts else (None if None in verdicts else True)
+        return self._same_element(a, b)
+
     def compare(self, op, left, right):
+        if isinstance(op, (ast.Eq, ast.NotEq)) and all(isinstance(v, tuple) and v[:1] == ("kwdict",) for v in (left, right)):
+            same = self._values_equal(left, right)
+            if same is not None:
+                return "T" if same == isinstance(op, ast.Eq) else "F"
         if isinstance(op, (ast.In, ast.NotIn)) and isinstance(right, tuple) and right[:1] == ("kwdict",):
             ok_, key_ = self._dkey(left)
             if ok_:
@@ -944,7 +969,7 @@ class EffectDomain(DefaultDomain):
             return kwm
         fa = call.func
         if isinstance(fa, ast.Attribute) and fa.attr == "format" and isinstance(fa.value, ast.Constant) and isinstance(fa.value.value, str) \
-                and not any(isinstance(a, ast.Starred) for a in call.args) and all(k.arg is not None for k in call.keywords):
+                and all(k.arg is not None for k in call.keywords):
             # "...{}...".format(x): the same text as the f-string with x in that place
             import string
             try:
@@ -954,11 +979,23 @@ class EffectDomain(DefaultDomain):
             simple = fields is not None and all(spec in ("", None) and conv is None for _, _, spec, conv in fields)
             if simple:
                 out = []
-                for r in interp.eval_list(list(call.args) + [k.value for k in call.keywords], st, fr):
+                for r in interp.eval_list([a.value if isinstance(a, ast.Starred) else a for a in call.args] + [k.value for k in call.keywords], st, fr):
                     if r.kind == "exc":
                         out.append(r)
                         continue
-                    pos_ = list(r.value[: len(call.args)])
+                    pos_, spread = [], True
+                    for a, v in zip(call.args, r.value[: len(call.args)]):
+                        if isinstance(a, ast.Starred):
+                            els = interp._exact_elements(v)
+                            if els is None:
+                                spread = False
+                                break
+                            pos_.extend(els)
+                        else:
+                            pos_.append(v)
+                    if not spread:
+                        out.append(val(NOTNONE, r.state))
+                        continue
                     kw_ = {k.arg: v for k, v in zip(call.keywords, r.value[len(call.args):])}
                     parts, auto, ok_ = [], 0, True
                     for lit, name, _, _ in fields:
